@@ -104,6 +104,12 @@ PROPS = {
 # a failed obligation carrying one of these tags weakens every other mapper proof. Such a failure counts against another property only together
 # with a concrete failing input for that property (check: rests_on), never on its own.
 _INV_TAGS = ['C19', 'C01', 'C02', 'C03']
+# the same holds for the four properties of the per-device loop and its four invariants
+for _p in ('C10', 'C11', 'C12', 'C20'):
+    _r = list(PROPS[_p].get('rests_on') or [])
+    for _t in ('C10', 'C11', 'C12', 'C20'):
+        if _t != _p and _t not in _r: _r.append(_t)
+    PROPS[_p]['rests_on'] = _r
 for _p in ('C01', 'C02', 'C03', 'C04', 'C05', 'C06', 'C07', 'C08', 'C09', 'C19', 'C14'):
     _r = list(PROPS[_p].get('rests_on') or [])
     for _t in _INV_TAGS:
